@@ -302,6 +302,10 @@ _public_ int m_mod_ps_subscribe(m_mod_t *mod, const char *topic, m_src_flags fla
                     return 0;
                 }
                 /* Flags changed: the entry is keyed by the old subscription's topic string, that dies with it; drop it first */
+                if (old_sub->userptr == userptr) {
+                    /* Same userdata handed over again: it lives on with the new subscription */
+                    old_sub->flags &= ~M_SRC_AUTOFREE;
+                }
                 m_map_remove(mod->subscriptions, topic);
             }
         }
